@@ -198,6 +198,7 @@ func cmdWorker(args []string) int {
 	isolate := fs.Bool("isolate", h.RaceBuild, "run every scenario in a process of its own (race builds: detection must not depend on what ran before)")
 	single := fs.Int("single", -1, "run exactly this scenario index (used by -isolate)")
 	fs.Parse(args)
+	initKnownWorker()
 
 	if pf := os.Getenv("LSSIM_CPUPROFILE"); pf != "" {
 		f, _ := os.Create(pf)
@@ -257,11 +258,21 @@ func cmdWorker(args []string) int {
 		w.Scenarios++
 		w.LogHashes[strconv.Itoa(idx)] = x.LogHash()
 		if v != nil {
+			// a recorded finding does not end the exploration: keep two samples
+			// of it and go on
+			if knownWorkerFP[v.Fingerprint] {
+				knownHits[v.Fingerprint]++
+				if knownHits[v.Fingerprint] > 2 {
+					continue
+				}
+			}
 			sc.Violation = v
 			f := filepath.Join(*out, fmt.Sprintf("viol-%d.json", idx))
 			sc.Save(f)
 			w.Violations = append(w.Violations, ViolOut{Index: idx, Fingerprint: v.Fingerprint, File: f, V: v})
-			nviol++
+			if !knownWorkerFP[v.Fingerprint] {
+				nviol++
+			}
 			if nviol >= *maxViol {
 				break
 			}
@@ -357,7 +368,13 @@ func isolatedWorker(prop, tier string, seed uint64, worker, nworkers, count int,
 			tot.Violations = append(tot.Violations, v)
 		}
 		os.RemoveAll(sub)
-		if len(tot.Violations) >= maxViol {
+		fresh := 0
+		for _, v := range tot.Violations {
+			if !knownWorkerFP[v.Fingerprint] {
+				fresh++
+			}
+		}
+		if fresh >= maxViol {
 			break
 		}
 	}
@@ -434,6 +451,19 @@ type KnownFinding struct {
 	What        string `json:"what"`
 }
 
+// fingerprints of recorded findings, for the workers (LSSIM_KNOWN is set by
+// the coordinator); they never stop a worker early
+var knownWorkerFP = map[string]bool{}
+var knownHits = map[string]int{}
+
+func initKnownWorker() {
+	if p := os.Getenv("LSSIM_KNOWN"); p != "" {
+		for _, k := range loadKnown(p).Findings {
+			knownWorkerFP[k.Fingerprint] = true
+		}
+	}
+}
+
 func loadKnown(path string) *Known {
 	k := &Known{}
 	b, err := os.ReadFile(path)
@@ -449,8 +479,8 @@ func loadKnown(path string) *Known {
 
 // tier budgets: scenarios per worker
 func budget(prop, tier string) (count int, deadline float64) {
-	q := map[string]int{"C01": 5, "C02": 6, "C03": 6, "C04": 6, "C05": 30, "C06": 6, "C07": 20, "C08": 30, "C09": 150, "C10": 150, "C11": 20, "C12": 8, "C13": 30, "C14": 8, "C15": 150, "C16": 100, "C18": 6, "C19": 40}
-	t := map[string]int{"C01": 80, "C02": 60, "C03": 80, "C04": 60, "C05": 150, "C06": 60, "C07": 300, "C08": 500, "C09": 3000, "C10": 3000, "C11": 300, "C12": 80, "C13": 400, "C14": 80, "C15": 3000, "C16": 2000, "C18": 60, "C19": 1000}
+	q := map[string]int{"C01": 5, "C02": 6, "C03": 6, "C04": 6, "C05": 30, "C06": 6, "C07": 40, "C08": 100, "C09": 1000, "C10": 1000, "C11": 60, "C12": 40, "C13": 150, "C14": 8, "C15": 1500, "C16": 600, "C18": 30, "C19": 600}
+	t := map[string]int{"C01": 80, "C02": 60, "C03": 80, "C04": 60, "C05": 150, "C06": 60, "C07": 600, "C08": 1500, "C09": 20000, "C10": 20000, "C11": 800, "C12": 400, "C13": 1500, "C14": 80, "C15": 20000, "C16": 8000, "C18": 300, "C19": 10000}
 	if tier == "thorough" {
 		if n, ok := t[prop]; ok {
 			return n, 1500
@@ -514,7 +544,7 @@ func cmdRun(args []string) int {
 			"-deadline", strconv.FormatFloat(deadline, 'f', 0, 64))
 		buf := &bytes.Buffer{}
 		c.Stdout, c.Stderr = buf, buf
-		c.Env = append(os.Environ(), "GOMAXPROCS=2", "GORACE=log_path="+filepath.Join(*out, fmt.Sprintf("race-%d", i))+" halt_on_error=0 history_size=7 suppress_equal_stacks=0 suppress_equal_addresses=0 exitcode=0")
+		c.Env = append(os.Environ(), "LSSIM_KNOWN="+*knownPath, "GOMAXPROCS=2", "GORACE=log_path="+filepath.Join(*out, fmt.Sprintf("race-%d", i))+" halt_on_error=0 history_size=7 suppress_equal_stacks=0 suppress_equal_addresses=0 exitcode=0")
 		procs[i] = &proc{cmd: c, buf: buf}
 		if err := c.Start(); err != nil {
 			fmt.Fprintln(os.Stderr, "lssim: start worker:", err)
